@@ -86,3 +86,25 @@ class SymSet:
 
     def __len__(self):
         return len(self.original)
+
+
+class symbolic_tables:
+    """Context manager: every set/frozenset-of-str attribute of the given classes / modules is replaced by a
+    SymSet for the duration (so tables added by a later change to the implementation are covered too)."""
+
+    def __init__(self, *owners):
+        self.owners = owners
+        self.saved = []
+
+    def __enter__(self):
+        for o in self.owners:
+            for name, val in list(vars(o).items()):
+                if isinstance(val, (set, frozenset)) and val and all(isinstance(x, str) for x in val):
+                    self.saved.append((o, name, val))
+                    setattr(o, name, SymSet(val))
+        return self
+
+    def __exit__(self, *a):
+        for o, name, val in self.saved:
+            setattr(o, name, val)
+        return False
